@@ -3320,9 +3320,14 @@ def run(ctx):
                 'err_max': float(scenes[0]['err'].max()), 'reps': reps, 'entries': sorted(ENTRY_POINTS)})
     for k, sc in enumerate(scenes):
         for name in ENTRY_POINTS:
-            if name == 'Ellipse' and k >= (1 if quick else 4):
+            if name in ('Ellipse', 'isophote') and k >= (1 if quick else 4):
                 continue
-            product_one(ctx, sc, name, reps, found)
+            use = reps
+            if name == 'centroids' and k >= 1 and quick:
+                # the fit-heavy entry: from the second scene on only the representations that take other code
+                # paths inside the centroid functions (containers with masks, integers, float32)
+                use = [r for r in reps if r in ('ma_false', 'ma_nomask', 'i2', 'f4', 'quantity')]
+            product_one(ctx, sc, name, use, found)
         run_mixed(ctx, sc) if k < 2 else None
     check_annotations(ctx, scenes[0], [r for r in reps if r not in ND_REPS])
     # ---- float32 exactness on a bright scene (pixel values < 2**24, sums far above 2**24)
